@@ -410,7 +410,11 @@ pub fn run(tier: Tier) -> RunOutcome {
                             ),
                         ));
                     }
-                } else if snap.status != rsnap.status {
+                } else if snap.status != rsnap.status
+                    // both limits tripping at the same boundary: the property does not say
+                    // which one gets the blame
+                    && !(rsnap.iterations == op.max_iter && is_maxtime_family(snap.status))
+                {
                     out.violations.push(Violation::new(
                         "C04.verdict_changed",
                         format!(
